@@ -817,6 +817,12 @@ func (ex *Exec) applyGetter(st *State, c *Contract, fn *types.Func, recv *Val, a
 			for k, ks := range sh.Kids {
 				o.Kids = append(o.Kids, build(ks, path+"."+sh.Names[k]))
 			}
+			switch sh.Kind {
+			case "slice":
+				st.assume("(<= 0 " + o.Kids[0].S + ")")
+			case "map":
+				st.assume("(<= 0 " + o.Kids[1].S + ")")
+			}
 			return o
 		}
 		v := build(sh, "")
